@@ -540,6 +540,33 @@ func c04Bodies(w *World, r *Result, rule string) {
 						}
 					case *ssa.Const:
 					default:
+						// a field of a struct that a helper of the parser hands back (the case read by a
+						// helper: {expr, body}): what the helper put into that field
+						if call, idx, fld, ok := resultPiece(v); ok && fld >= 0 {
+							helper := call.Call.StaticCallee()
+							if helper != nil && len(helper.Blocks) > 0 && pkgOf(helper) == ppkg {
+								found := false
+								for _, hb := range helper.Blocks {
+									ret, isRet := hb.Instrs[len(hb.Instrs)-1].(*ssa.Return)
+									if !isRet || idx >= len(ret.Results) {
+										continue
+									}
+									if _, isConst := ret.Results[idx].(*ssa.Const); isConst {
+										continue
+									}
+									fv := structFieldValue(ret.Results[idx], fld)
+									if fv == nil {
+										bad = "a field of a struct whose contents are not followed"
+										return
+									}
+									found = true
+									back(fv, d+1)
+								}
+								if found {
+									return
+								}
+							}
+						}
 						bad = fmt.Sprintf("a %T", v)
 					}
 				}
